@@ -67,6 +67,10 @@ def opTree (j : Json) : Except String Json := do
         | .error _ => pure ()
       | "add" => w := w.add (← tree a)
       | _ => throw "bad tree op"
+    | [k, a, b] =>
+      match ← k.getStr? with
+      | "add_at" => w := w.addAt (← (← arr a).mapM nat) (← tree b)
+      | _ => throw "bad tree op"
     | _ => throw "bad tree op"
   pure (Json.arr out)
 
